@@ -406,10 +406,12 @@ AddDests(c, S) ==
   /\ Idle /\ born[c] /\ S \cap Range(dests) = {}          \* S may be empty: add_destinations() with no destination still ends buffering
   /\ IF anyAdded THEN /\ dests' = dests \o SeqOfSet(S) /\ UNCHANGED <<anyAdded, work>>
      ELSE /\ dests' = SeqOfSet(S) /\ anyAdded' = TRUE
-          /\ work' = <<[t |-> "redeliver", j |-> 1]>>
+          /\ work' = <<[t |-> "redeliver", j |-> 1, errs |-> <<>>]>>
   \* ghost: exactly the destinations of the FIRST call get the most recent Cap earlier messages, in order
+  \*        (and, when nothing was dropped from the buffer, they have seen everything: "registered all along" for the invariants)
   /\ gh' = IF anyAdded THEN gh
-            ELSE [gh EXCEPT !.expect = [d \in Dest |-> IF d \in S THEN LastN(gh.pre, Cap) ELSE gh.expect[d]]]
+            ELSE [gh EXCEPT !.expect = [d \in Dest |-> IF d \in S THEN LastN(gh.pre, Cap) ELSE gh.expect[d]],
+                            !.init = IF Len(gh.pre) <= Cap /\ Len(gh.pre) <= 64 THEN S ELSE {}]   \* (64: cost of the quadratic invariants)
   /\ Begin(c, "ok", [op |-> "AddDests", c |-> c, S |-> S])
   /\ UNCHANGED <<acts, cur, blocks, born, base, nuuid, ids, buffer, gf, reg, offered, ret, nfaults, nmsgs, nodes, dev>>
 
@@ -515,9 +517,15 @@ DeliverAbort(d) ==
   /\ hist' = Append(hist, [op |-> "Deliver", d |-> d, raise |-> TRUE, abort |-> TRUE])
   /\ nfaults' = nfaults + 1
   /\ UNCHANGED <<acts, cur, blocks, born, base, nuuid, ids, dests, anyAdded, buffer, gf, reg, ret, nmsgs, nodes, gh>>
+\* During the re-delivery of the start-up buffer (the item beneath is the "redeliver" loop) failures are only collected; they
+\* are reported when every buffered message has been delivered, so a report -- a NEWER message -- never overtakes an older one.
+\* Feature "inline_reports" is the code before the repair F12 (reports inline): TLC must then reject C02_EmissionOrder.
+Redelivering == Len(work) >= 2 /\ work[Len(work) - 1].t = "redeliver" /\ "inline_reports" \notin Feat
 SendDone ==
   /\ Busy /\ Top.t = "send" /\ anyAdded /\ Pending(Top) = <<>>
-  /\ work' = IF Top.errs = <<>> THEN Pop ELSE ReplaceTop([t |-> "report", errs |-> Top.errs, j |-> 1])
+  /\ work' = IF Redelivering
+             THEN [Pop EXCEPT ![Len(work) - 1].errs = @ \o Top.errs]
+             ELSE IF Top.errs = <<>> THEN Pop ELSE ReplaceTop([t |-> "report", errs |-> Top.errs, j |-> 1])
   /\ UNCHANGED <<acts, cur, blocks, born, base, nuuid, ids, dests, anyAdded, buffer, gf, reg, offered, call, ret, nfaults, nmsgs, nodes, dev, gh, hist>>
 \* one iteration of the second loop of send(): one eliot:destination_failure per collected error, via log_message
 Report ==
@@ -539,7 +547,7 @@ Redeliver ==
   /\ Busy /\ Top.t = "redeliver"
   /\ work' = IF Top.j <= Len(buffer)
              THEN Append(ReplaceTop([Top EXCEPT !.j = @ + 1]), SendItem(buffer[Top.j]))
-             ELSE Pop
+             ELSE IF Top.errs = <<>> THEN Pop ELSE ReplaceTop([t |-> "report", errs |-> Top.errs, j |-> 1])
   /\ UNCHANGED <<acts, cur, blocks, born, base, nuuid, ids, dests, anyAdded, buffer, gf, reg, offered, call, ret, nfaults, nmsgs, nodes, dev, gh, hist>>
 
 \* inside p(): enter the continued action, run f (one message), leave it (context restored, then the end message)
@@ -620,7 +628,7 @@ Next ==
        \/ F("elsewhere") /\ Len(hist) < 2 * MaxMsgs /\ \E a \in DOMAIN acts, k \in {"with", "ctx"} : LeaveElsewhere(c, a, k)
        \/ F("dests") /\ (\/ \E S \in SUBSET Dest : AddDests(c, S)
                          \/ \E d \in Dest : RemoveDest(c, d)
-                         \/ \E f \in {"g1", "g2"}, v \in 1..2 : (f = "g2" => v = 1) /\ (\A p \in gf : p[1] = f => p[2] < v) /\ AddGlobal(c, f, v))
+                         \/ ~F("noglobals") /\ \E f \in {"g1", "g2"}, v \in 1..2 : (f = "g2" => v = 1) /\ (\A p \in gf : p[1] = f => p[2] < v) /\ AddGlobal(c, f, v))
 Spec == Init /\ [][Next]_vars
 
 -----------------------------------------------------------------------------
